@@ -607,6 +607,10 @@ class Interp:
             return self.bare(op, n)
         if k == "reent":
             return self.reent(op)
+        if k == "metaeq":
+            return self.metaeq(op)
+        if k == "life":
+            return self.life(op)
         if k == "newcomp":
             from zope.interface.registry import Components
             if not hasattr(w, "comps"):
@@ -891,6 +895,158 @@ class Interp:
                 out.append(sorted(key(r) for r in lst))
             return out
         raise RuntimeError(meth)
+
+    def metaeq(self, op):
+        """class objects whose metaclass defines == / hash: equal-but-distinct classes where one
+        subclasses the other, interfaces provided by the BASE class object, queries about the subclass
+        ["metaeq", kind, provided iface id, implemented iface id, r, warm]
+           kind = "byname" | "always" | "never";  warm: call implementedBy(Sub) before the queries"""
+        w = self.w
+        kind, pi, ii, r, warm = op[1:6]
+        IP, II = w.specs[pi], w.specs[ii]
+
+        class Meta(type):
+            def __eq__(cls, other):
+                if not isinstance(other, Meta):
+                    return NotImplemented
+                if kind == "always":
+                    return True
+                if kind == "never":
+                    return False
+                return cls.__name__ == other.__name__
+
+            def __ne__(cls, other):
+                x = cls.__eq__(other)
+                return x if x is NotImplemented else not x
+
+            def __hash__(cls):
+                return hash(cls.__name__) if kind == "byname" else 7
+        Base = Meta("Widget", (object,), {"__module__": "verif.metaeq"})
+        implementer(II)(Base)
+        provider(IP)(Base)
+        Sub = Meta("Widget", (Base,), {"__module__": "verif.metaeq"})
+        Other = Meta("Gadget", (object,), {"__module__": "verif.metaeq"})
+        reg = w.regs[r]
+        fac = w.value([3, 3])
+        reg.register([IP], Interface, "metaeq", fac)
+        outs = []
+
+        def att(f):
+            try:
+                x = f()
+            except Exception as e:
+                outs.append(tok_exc(e))
+                return
+            if x is Base:
+                x = "Base"
+            elif x is Sub:
+                x = "Sub"
+            outs.append("default" if x is self.dflt else w.canon(x))
+        try:
+            if warm:
+                att(lambda: implementedBy(Sub))
+            for cls in (Sub, Base, Other):
+                att(lambda: IP.providedBy(cls))
+                att(lambda: IP in providedBy(cls))
+                att(lambda: providedBy(cls))
+                att(lambda: IP(cls, self.dflt))
+                att(lambda: reg.queryAdapter(cls, Interface, "metaeq", self.dflt))
+                att(lambda: cls.__provides__)
+                att(lambda: getattr(cls(), "__provides__"))
+                att(lambda: providedBy(cls()) is implementedBy(cls))
+                att(lambda: providedBy(cls()))
+                att(lambda: implementedBy(cls).inherit is cls)
+                att(lambda: II.providedBy(cls()))
+                att(lambda: II.implementedBy(cls))
+        finally:
+            reg.unregister([IP], Interface, "metaeq", fac)
+        return outs
+
+    def life(self, op):
+        """object lifetimes after a lookup: ["life", entry, r, class spec id, objkind, behaviour, with_default]
+           entry = queryAdapter | adapter_hook | queryMultiAdapter | subscribers | lookup | lookup1 | call
+           objkind = plain | direct | super;  behaviour = adapter | none | raise | miss
+        Reports the answer and, after dropping every reference and gc.collect(), which of the
+        object, the adapter, the factory and a throw-away registry are gone."""
+        import gc
+        import weakref
+        w = self.w
+        entry, r, ci, objkind, beh, with_default = op[1:7]
+        cls = w.classes[ci]
+        reg = w.regs[r]
+        name = "life"
+
+        class Adapter:
+            pass
+
+        class Boom(Exception):
+            pass
+
+        class Factory:
+            def __call__(self, *obs):
+                if beh == "none":
+                    return None
+                if beh == "raise":
+                    raise Boom()
+                return Adapter()
+        ob = cls()
+        if objkind == "direct":
+            directlyProvides(ob, w.specs[0])
+        target = super(cls, ob) if objkind == "super" else ob
+        fac = Factory()
+        required = [implementedBy(cls)] if objkind != "super" else [implementedBy(object)]
+        prov = w.specs[0]
+        if beh != "miss":
+            if entry == "subscribers":
+                reg.subscribe(required, prov, fac)
+            else:
+                reg.register(required, prov, name, fac)
+        tmp = type(reg)((reg,))
+        refs = {"ob": weakref.ref(ob), "fac": weakref.ref(fac), "tmp": weakref.ref(tmp)}
+        d = (self.dflt,) if with_default else ()
+        res = None
+        tok = None
+        try:
+            for rg in (reg, tmp):
+                if entry == "queryAdapter":
+                    res = rg.queryAdapter(target, prov, name, *d)
+                elif entry == "adapter_hook":
+                    res = rg.adapter_hook(prov, target, name, *d)
+                elif entry == "queryMultiAdapter":
+                    res = rg.queryMultiAdapter((target,), prov, name, *d)
+                elif entry == "subscribers":
+                    res = rg.subscribers((target,), prov)
+                elif entry == "lookup":
+                    res = rg.lookup((providedBy(target),), prov, name, *d)
+                elif entry == "lookup1":
+                    res = rg.lookup1(providedBy(target), prov, name, *d)
+                else:
+                    del adapter_hooks[:]
+                    adapter_hooks.append(lambda iface, o: rg.adapter_hook(iface, o, name))
+                    try:
+                        res = prov(target, *d) if False else w.specs[0].__call__(target, *d)
+                    finally:
+                        del adapter_hooks[:]
+            tok = "default" if res is self.dflt else type(res).__name__ if not isinstance(res, list) else \
+                [type(x).__name__ for x in res]
+        except Exception as e:
+            tok = tok_exc(e)
+            e = None
+        adapters = res if isinstance(res, list) else [res]
+        arefs = [weakref.ref(a) for a in adapters if isinstance(a, Adapter)]
+        del res, adapters, target, ob, tmp
+        rg = None
+        gc.collect()
+        out = [tok, refs["ob"]() is None, [a() is None for a in arefs], refs["tmp"]() is None]
+        if beh != "miss":
+            if entry == "subscribers":
+                reg.unsubscribe(required, prov, fac)
+            else:
+                reg.unregister(required, prov, name, fac)
+        del fac
+        gc.collect()
+        out.append(refs["fac"]() is None)
+        return self.w.canon(out)
 
     def icsub(self, op):
         """interfaces whose *class* is a plain subclass of InterfaceClass:
